@@ -133,6 +133,12 @@ def _const(rng, shape, kind=None, kinds=None):
             if shape[0] > 1:
                 a[-1] = 0.0
             a = a.reshape(-1)
+    elif kind == "deadrow":
+        a = r.randn(n)
+        if len(shape) >= 2 and shape[0] > 1:   # a pruned output channel: all-zero weights (its bias is an ordinary number)
+            a = a.reshape(shape)
+            a[-1] = 0.0
+            a = a.reshape(-1)
     elif kind == "denorm":
         # ordinary weights with a few float32 SUBNORMAL entries (pruned / underflowed weights): products with them underflow
         a = r.randn(n)
